@@ -157,20 +157,35 @@ def violates(run, case, impl, model):
     return True
 
 
-LEVEL_TEXT = ("Proof: for all byte strings the literal written by strquote.Append is read back by an independent literal "
-              "reader as exactly that string, is printable ASCII, has no bare quote/backslash, and is injective; the "
-              "reader inverts the printer on all float-free value trees; for all float-free schemas, stored values and "
-              "encoder states the text of Encode reads back as exactly the field values the walk shows; for all "
-              "histories of Encode calls on one encoder the next Encode writes what a fresh encoder writes. The models "
-              "are tied to strquote, encoding/text, list.go and nodemap by differential runs (extracted OCaml vs the "
-              "Go code, incl. the exact remaining budget of the cached schema message).")
-LEVEL_NOTE = ("C01/C02 clause for the renderer (round 2): hostile-message and recursive-type runs with impl_violation; totality "
-              "of the walk is proved only for structs without struct/list/group fields (C20_render_total_flat_partial, an "
-              "extra theorem outside C20's own statement); the pre-fix divergence is render_total_refuted. "
-              "Trusted: Coq kernel, extraction, harness; the models are hand-written. Floats are opaque tokens (strconv 'g' "
-              "not modelled; parse_render is stated for float-free schemas, history independence for all). Decimal "
-              "printing is Coq's Z.to_int. The value message's own traversal budget is reset by the harness before "
-              "every Encode (not the subject of C20).")
+LEVEL_TEXT = ("Proof (Coq, closed under the global context) about hand-written models of strquote.Append, encoding/text "
+              "(marshalStruct/FieldValue/List/Enum, EncodeList), the typed lists' String() and the nodemap cache: for ALL byte "
+              "strings the literal is read back by an independent reader as that string, is printable ASCII, has no bare "
+              "quote/backslash, is injective; the reader inverts the printer on all float-free value trees; for all "
+              "FLOAT-FREE schemas with identifier names, all stored values (wrong-kind pointers, out-of-range ordinals, "
+              "upgraded lists included) and all encoder states, IF Encode succeeds its text reads back as exactly the field "
+              "values the walk shows (parse_render, parse_encode_any_state); every slot is shown as the value its generated "
+              "accessor returns, over an accessor specification written from the capnpc-go templates "
+              "(slot_value_eq_accessor, shown_struct_via_accessors); after ANY history of Encode / EncodeList / UseRegistry "
+              "calls on one encoder, Encode and EncodeList write what a fresh encoder on the current registry writes. "
+              "Scope: one cached schema message per encoder (all types in one schema file); statements about text are "
+              "conditional on success (totality of the walk is proved only for structs without struct/list/group fields). "
+              "The models are tied to the Go code by differential runs (extracted OCaml vs Go, byte for byte, incl. the exact "
+              "remaining budget of the cached schema message) and the text is compared with the GENERATED accessors of "
+              "aircraftlib on well-kinded, wrong-kinded, upgraded and hostile inputs.")
+LEVEL_NOTE = ("Gaps, in plain words. (1) 'Same field values as the generated accessors': proved against the accessor "
+              "specification `accessor` of TextM.v (Ptr.*Default semantics, wrong-kind pointers fall back to the default); that "
+              "specification is NOT linked by a theorem to C15's Layout.gen_getter or C19's PogsM.gen_getter - the link to the "
+              "real generated code is the differential run only. The Go code violated this clause for wrong-kind pointers with "
+              "defaults until fix cdd3c4b (as-found variant: shows_accessor_value_refuted). (2) Floats: strconv 'g' is an "
+              "oracle; parse_render excludes float types; history independence holds for all types. (3) 'Well-formed text' "
+              "for the whole output is the statement that it parses with TextSpec.parse_text (float-free fragment); "
+              "printable-ASCII is proved for string literals, not stated for the whole output (field/enumerant names are "
+              "identifiers by premise). (4) Totality: C20_render_total_flat_partial only; nested / recursive types rest on the "
+              "hostile and recursive-type runs (pre-fix divergence: render_total_refuted, render_cycle3_refuted). (5) A failed "
+              "schema read is Err in the model where Go may drop the error and write truncated text (unreachable under the "
+              "fixed cache: budget reset to 2^64-1 at every lookup). (6) Decimal printing is Coq's Z.to_int. (7) The value "
+              "message's own traversal budget is reset by the harness before every Encode. "
+              "Trusted: Coq kernel, extraction, harness, hand-written models.")
 TECHNIQUE = "Coq proof over an executable model + extracted-model/implementation differential run"
 DESIGN_REF = "DESIGN.md section 6, C20"
 
